@@ -436,6 +436,10 @@ func writeComputedFieldExpression(w *formatting.IndentedWriter, expression dsl.E
 						requiresParentheses = true
 					}
 				}
+				if _, ok := t.Left.(*dsl.UnaryExpression); ok && t.Operator == dsl.BinaryOpPow {
+					// ** binds tighter than unary minus in Python: (-a) ** b must keep its parentheses
+					requiresParentheses = true
+				}
 
 				if requiresParentheses {
 					w.WriteString("(")
